@@ -69,6 +69,32 @@ func c24CloseQueue(q *Queue[string]) {
 	<-fin
 }
 
+// c24Slab hands out object slices that are sub-slices of one shared backing
+// array (len < cap: the capacity runs to the end of the slab), the way a caller
+// that carves its writes out of one buffer would. Chunks are taken in a
+// generated order, so a write's spare capacity overlaps the cells of writes
+// that are still pending. The expected objects are always kept in separate
+// copies.
+type c24Slab struct {
+	cells []string
+	chunk int
+}
+
+func c24NewSlab(chunks, chunk int) *c24Slab {
+	s := &c24Slab{cells: make([]string, chunks*chunk), chunk: chunk}
+	for i := range s.cells {
+		s.cells[i] = fmt.Sprintf("slab-filler-%d", i)
+	}
+	return s
+}
+
+// take stores objs into chunk c and returns the slab sub-slice holding them.
+func (s *c24Slab) take(c int, objs []string) []string {
+	off := c * s.chunk
+	copy(s.cells[off:], objs)
+	return s.cells[off : off+len(objs)]
+}
+
 func c24Closed(ch FlushChannel) bool {
 	select {
 	case <-ch:
@@ -123,9 +149,17 @@ func c24Assign(writes []*c24Write, batches []*c24Batch, batchSize int, complete 
 	return "", "", contains
 }
 
+func c24Ints(n int) []int {
+	v := make([]int, n)
+	for i := range v {
+		v[i] = i
+	}
+	return v
+}
+
 func TestVerif_C24_Lockstep(t *testing.T) {
 	rec := vstat.New(t, "C24", "lockstep",
-		"lock-step sequences of 6..30 ops on one Queue[string] (batch size 1..5, timeout disabled / 1h / 2-8ms, capacity large enough never to block): Write by writer w of 0..3 unique objects with or without completion channel, Flush, wait longer than the timeout, consume one request (must arrive within 10s when the batch size was reached, a flush was issued or the timeout was waited out), close a received request; after every op no completion channel of an unclosed request may be closed and O1-O4 must hold for everything received; non-trivial = at least two requests were emitted, one of them by batch-size and one by flush or timer, and some completion channel was observed open after its request was received; distinct by op sequence")
+		"lock-step sequences of 6..30 ops on one Queue[string] (batch size 1..5, timeout disabled / 1h / 2-8ms, capacity large enough never to block): Write by writer w of 0..3 unique objects with or without completion channel (in half of the cases the object slices are sub-slices with spare capacity of one shared slab, taken in a generated order), Flush, wait longer than the timeout, consume one request (must arrive within 10s when the batch size was reached, a flush was issued or the timeout was waited out), close a received request; after every op no completion channel of an unclosed request may be closed and O1-O4 must hold for everything received; non-trivial = at least two requests were emitted, one of them by batch-size and one by flush or timer, and some completion channel was observed open after its request was received; distinct by op sequence")
 	rapid.Check(t, func(rt *rapid.T) {
 		batchSize := rapid.IntRange(1, 5).Draw(rt, "batchSize")
 		tmoKind := rapid.SampledFrom([]string{"off", "long", "short", "short"}).Draw(rt, "tmoKind")
@@ -137,6 +171,12 @@ func TestVerif_C24_Lockstep(t *testing.T) {
 			tmo = time.Duration(rapid.IntRange(2, 8).Draw(rt, "tmoMs")) * time.Millisecond
 		}
 		nOps := rapid.IntRange(6, 30).Draw(rt, "nops")
+		var slab *c24Slab
+		var slabOrder []int
+		if rapid.Bool().Draw(rt, "slab") {
+			slab = c24NewSlab(nOps, 3)
+			slabOrder = rapid.Permutation(c24Ints(nOps)).Draw(rt, "slabOrder")
+		}
 		q := New[string](4*nOps+8, batchSize, tmo)
 		defer c24CloseQueue(q)
 
@@ -229,7 +269,9 @@ func TestVerif_C24_Lockstep(t *testing.T) {
 				}
 				trace = append(trace, fmt.Sprintf("write(w%d,n=%d,ch=%v)", w, n, withCh))
 				var objs []string
-				if n > 0 || rapid.Bool().Draw(rt, "emptyNotNil") {
+				if slab != nil {
+					objs = slab.take(slabOrder[len(writes)], cw.objs)
+				} else if n > 0 || rapid.Bool().Draw(rt, "emptyNotNil") {
 					objs = append([]string{}, cw.objs...)
 				}
 				seq, err := q.Write(objs, cw.ch)
@@ -331,6 +373,9 @@ func TestVerif_C24_Lockstep(t *testing.T) {
 		rec.Case(len(batches) >= 2 && bySize > 0 && byFlushOrTimer > 0 && openAfterRecv > 0, strings.Join(trace, " "))
 		rec.Sample(strings.Join(trace, " "))
 		rec.Label("timeout-" + tmoKind)
+		if slab != nil {
+			rec.Label("objects-carved-from-shared-slab")
+		}
 		if bySize > 0 {
 			rec.Label("full-batch")
 		}
@@ -350,7 +395,7 @@ func TestVerif_C24_Lockstep(t *testing.T) {
 // requests late, small capacity (back-pressure), short timeouts.
 func TestVerif_C24_Stress(t *testing.T) {
 	rec := vstat.New(t, "C24", "stress",
-		"free-running: 4-6 writer goroutines each issue 3..12 Writes (0..3 unique objects, most with a completion channel that the writer then waits for), a flusher goroutine issues 0..6 Flushes, one consumer receives requests and closes them after 0..3 further requests or yields; capacity 1..8 (writers block), batch size 1..6, timeout off/1-3ms; when all writers are done a final Flush is issued; O1-O4 on the full emitted stream, O5 through a closed-up-to watermark the consumer publishes before Request.Close; non-trivial = some request merged writes of at least two writers and some request was partial; distinct by parameters")
+		"free-running: 4-6 writer goroutines each issue 3..12 Writes (0..3 unique objects, most with a completion channel that the writer then waits for; in half of the cases all writers carve their object slices, len<cap, out of one shared slab in a generated chunk order), a flusher goroutine issues 0..6 Flushes, one consumer receives requests and closes them after 0..3 further requests or yields; capacity 1..8 (writers block), batch size 1..6, timeout off/1-3ms; when all writers are done a final Flush is issued; O1-O4 on the full emitted stream, O5 through a closed-up-to watermark the consumer publishes before Request.Close; non-trivial = some request merged writes of at least two writers and some request was partial; distinct by parameters")
 	rapid.Check(t, func(rt *rapid.T) {
 		nW := rapid.IntRange(4, 6).Draw(rt, "writers")
 		batchSize := rapid.IntRange(1, 6).Draw(rt, "batchSize")
@@ -376,7 +421,19 @@ func TestVerif_C24_Stress(t *testing.T) {
 				total++
 			}
 		}
-		canon := fmt.Sprintf("bs=%d max=%d tmo=%dms fl=%d hold=%d %v", batchSize, maxSize, tmoMs, nFlush, holdBack, progs)
+		var slab *c24Slab
+		var slabOrder []int
+		base := make([]int, nW)
+		if rapid.Bool().Draw(rt, "slab") {
+			slab = c24NewSlab(total, 3)
+			slabOrder = rapid.Permutation(c24Ints(total)).Draw(rt, "slabOrder")
+			off := 0
+			for w := range progs {
+				base[w] = off
+				off += len(progs[w])
+			}
+		}
+		canon := fmt.Sprintf("bs=%d max=%d tmo=%dms fl=%d hold=%d slab=%v%v %v", batchSize, maxSize, tmoMs, nFlush, holdBack, slab != nil, slabOrder, progs)
 		q := New[string](maxSize, batchSize, time.Duration(tmoMs)*time.Millisecond)
 		defer c24CloseQueue(q)
 
@@ -445,7 +502,11 @@ func TestVerif_C24_Stress(t *testing.T) {
 					if s.Ch {
 						cw.ch = make(FlushChannel)
 					}
-					seq, err := q.Write(append([]string{}, cw.objs...), cw.ch)
+					objs := append([]string{}, cw.objs...)
+					if slab != nil {
+						objs = slab.take(slabOrder[base[w]+i], cw.objs)
+					}
+					seq, err := q.Write(objs, cw.ch)
 					if err != nil {
 						stuck.Store(2)
 						return
@@ -571,6 +632,9 @@ func TestVerif_C24_Stress(t *testing.T) {
 		}
 		if maxSize < batchSize {
 			rec.Label("capacity-below-batch-size")
+		}
+		if slab != nil {
+			rec.Label("objects-carved-from-shared-slab")
 		}
 		rec.LabelN("requests", len(batches))
 		rec.LabelN("writes", total)
